@@ -11,7 +11,7 @@ Line protocol (one script per line, stateless):
                          payload % d == r; "-" = none), msgs = `type.payload` joined by ","
                          → per message the calls `subscription.callable` joined by "," ("-" = none), ";" between
 
-script = comma separated events:  s | b | r<key|n>:<payload> | e<key|n>:<payload> (event) |
+script = comma separated events:  s | b | F (a send that raises) | r<key|n>:<payload> | e<key|n>:<payload> (event) |
          o<key|n>:<payload> (other non-response) | t<request>      ("-" = empty)
 answer = per event the outputs `snt:r:k dlv:r:k:v dsp:k:v drp:k:v tmo:r flt:r` joined by ","
          ("-" = none), events joined by ";"   ("=" for the empty script)
@@ -32,6 +32,7 @@ def parseEv (tok : String) : Option Ev :=
   match tok.toList with
   | ['s'] => some .send
   | ['b'] => some .burn
+  | ['F'] => some .sendFail
   | 't' :: rest => (String.ofList rest).toNat?.map Ev.timeout
   | 'r' :: rest => parseMsg rest Ev.recv
   | 'e' :: rest => parseMsg rest (Ev.msg .event)
